@@ -40,7 +40,7 @@ pub struct Case {
     pub self_payee: bool,
     pub all_close: bool,
     pub age: usize,      // 0 fresh, 1 two hours old, 2 one hour in the future
-    pub chain: usize,    // 0 paid, 1 unpaid, 2 rpc error
+    pub chain: usize,    // 0 paid, 1 unpaid, 2 rpc error, 3 http 503, 4 http 429, 5 connection closed
     pub own_quote_for_address: bool,
     pub kind: Kind,
     pub prior: Prior,
@@ -125,7 +125,7 @@ fn describe(c: &Case) -> serde_json::Value {
     json!({"kind": format!("{:?}", c.kind), "prior": format!("{:?}", c.prior),
         "signatures": (["authentic", "one forged", "one signed by another key"][c.sig]), "self_among_payees": c.self_payee, "all_payees_close": c.all_close,
         "age": (["fresh", "2h old", "1h in the future"][c.age]), "age_defect_on_own_quote": c.age_on_own,
-        "chain": (["paid", "unpaid", "rpc error"][c.chain]), "own_quote_for_this_address": c.own_quote_for_address})
+        "chain": (["paid", "unpaid", "rpc error", "http 503 on every attempt", "http 429 on every attempt", "connection closed on every attempt"][c.chain]), "own_quote_for_this_address": c.own_quote_for_address})
 }
 
 fn stored_matches(kind: Kind, stored: &[u8], up: &Upload) -> bool {
@@ -166,7 +166,10 @@ pub fn run_case(run: &Run, stub: &Arc<EvmStub>, c: &Case) {
     match c.chain {
         0 => stub.set(Chain::Paid),
         1 => stub.set_unpaid_hashes(&hashes[..1]),
-        _ => stub.set(Chain::RpcError),
+        2 => stub.set(Chain::RpcError),
+        3 => stub.set(Chain::Http503),
+        4 => stub.set(Chain::Http429),
+        _ => stub.set(Chain::Hangup),
     }
     let record = (up.with_payment)(&proof);
     let n = rig.node.clone();
@@ -277,7 +280,7 @@ fn unpaid_cases(run: &Run, stub: &Arc<EvmStub>) {
 
 pub fn cases(quick: bool) -> Vec<Case> {
     let mut v = vec![];
-    enumerate::product(&[3, 2, 2, 3, 3, 2, 4, 3, 2], |ix| {
+    enumerate::product(&[3, 2, 2, 3, 6, 2, 4, 3, 2], |ix| {
         let c = Case { sig: ix[0], self_payee: ix[1] == 0, all_close: ix[2] == 0, age: ix[3], chain: ix[4], own_quote_for_address: ix[5] == 0, kind: KINDS[ix[6]], prior: [Prior::Absent, Prior::SameVersion, Prior::OtherVersion][ix[7]], age_on_own: ix[8] == 1 };
         if c.age == 0 && c.age_on_own {
             return; // no age defect: the placement flag is irrelevant
@@ -307,7 +310,7 @@ pub fn main(tier: Option<&str>) {
     let run = Run::new("C03", "model_checking", tier);
     run.rule(
         "product of six payment conditions (signatures 3 x self-payee 2 x closeness 2 x age 3 (on another payee's or on the own quote) x \
-         chain answer 3 x quoted address 2) x kind 4 x prior content 3; quick = full product for chunks on an empty store + every single \
+         chain answer 6 (paid, unpaid, JSON-RPC error, HTTP 503 / 429 / connection closed on every attempt) x quoted address 2) x kind 4 x prior content 3; quick = full product for chunks on an empty store + every single \
          and double fault for the other kinds + single faults on held keys, thorough = full product. Each case runs the real \
          Node::validate_and_store_record on a fresh real SwarmDriver under the default (FIFO) schedule to quiescence, the payment \
          contract answered by a loopback JSON-RPC stub. Plus every unpaid kind x prior content. Non-trivial = at least one condition \
